@@ -502,7 +502,15 @@ def _F31():
     return not (y.dtype == torch.float64 and ld.dtype == torch.float64 and abs(ld.item() - 3 * math.log(2.0)) < 1e-14)
 
 
-REPLAYS = {'F31': _F31, 'F24': _F24, 'F25': _F25, 'F26': _F26, 'F27': _F27, 'F28': _F28, 'F29': _F29, 'F30': _F30, 'F1-linear': _F1('lin'), 'F1-quadratic': _F1('quad'), 'F1-cubic': _F1('cubic'), 'F2': _F2, 'F3': _F3, 'F4': _F4,
+def _F32():
+    from nflows.transforms.splines.cubic import cubic_spline
+    g = torch.Generator().manual_seed(1)
+    uw = torch.randn(1, 3, generator=g); uh = torch.randn(1, 3, generator=g)
+    y, ld = cubic_spline(torch.tensor([1.0]), uw, uh, torch.zeros(1, 1), torch.full((1, 1), -17.0))
+    return not (torch.isfinite(y).all() and torch.isfinite(ld).all())
+
+
+REPLAYS = {'F32': _F32, 'F31': _F31, 'F24': _F24, 'F25': _F25, 'F26': _F26, 'F27': _F27, 'F28': _F28, 'F29': _F29, 'F30': _F30, 'F1-linear': _F1('lin'), 'F1-quadratic': _F1('quad'), 'F1-cubic': _F1('cubic'), 'F2': _F2, 'F3': _F3, 'F4': _F4,
            'F6': _F6, 'F9': _F9, 'F12': _F12, 'F13': _F13, 'F16': _F16, 'F17': _F17}
 
 
